@@ -113,6 +113,57 @@ static void handler(const Line& t, Out& o) {
     o.Fd(s.get_estimate());
     for (unsigned kappa = 1; kappa <= 3; kappa++) { o.Fd(s.get_lower_bound(kappa)); o.Fd(s.get_upper_bound(kappa)); }
     break; }
+  case 8: { // bulk update r start count (implementation-only family)
+    cpc_sketch& s = gets(t.at(1)); uint64_t a = (uint64_t)t.at(2), n = (uint64_t)t.at(3);
+    try { for (uint64_t i = 0; i < n; i++) s.update(a + i); } catch (...) { sk.erase((long)t.at(1)); throw; }
+    o.R(1); break; }
+  case 30: { // compressed image of sketch r: table_num_entries, table words, window words
+    const cpc_sketch& s = gets(t.at(1));
+    typedef std::allocator<uint8_t> A;
+    compressed_state<A> c{A()};
+    c.table_data_words = 0; c.table_num_entries = 0; c.window_data_words = 0;
+    get_compressor<A>().compress(s, c);
+    o.R(c.table_num_entries); o.R(c.table_data_words);
+    for (uint32_t i = 0; i < c.table_data_words; i++) o.R(c.table_data.at(i));
+    o.R(c.window_data_words);
+    for (uint32_t i = 0; i < c.window_data_words; i++) o.R(c.window_data.at(i));
+    break; }
+  case 31: { // low_level_compress_bytes with table ti, then low_level_uncompress_bytes
+    typedef std::allocator<uint8_t> A;
+    unsigned ti = (unsigned)t.at(1);
+    if (ti >= 22) throw std::invalid_argument("table index");
+    std::vector<uint8_t> in; for (size_t i = 2; i < t.size(); i++) in.push_back((uint8_t)t[i]);
+    const uint32_t n = (uint32_t)in.size();
+    std::vector<uint32_t> words(cpc_compressor<A>::safe_length_for_compressed_window_buf(n), 0);
+    const cpc_compressor<A>& cmp = get_compressor<A>();
+    uint32_t used = cmp.low_level_compress_bytes(in.data(), n, encoding_tables_for_high_entropy_byte[ti], words.data());
+    std::vector<uint8_t> out(n + 1, 0);
+    cmp.low_level_uncompress_bytes(out.data(), n, cmp.decoding_tables_for_high_entropy_byte[ti], words.data(), used);
+    o.R(used); for (uint32_t i = 0; i < used; i++) o.R(words[i]);
+    for (uint32_t i = 0; i < n; i++) o.R(out[i]);
+    break; }
+  case 32: { // low_level_compress_pairs with num_base_bits, then low_level_uncompress_pairs
+    typedef std::allocator<uint8_t> A;
+    uint8_t nbb = (uint8_t)t.at(1);
+    std::vector<uint32_t> in; uint32_t maxrow = 0;
+    for (size_t i = 2; i < t.size(); i++) { in.push_back((uint32_t)t[i]); maxrow = std::max(maxrow, (uint32_t)t[i] >> 6); }
+    const uint32_t n = (uint32_t)in.size();
+    const size_t safe = cpc_compressor<A>::safe_length_for_compressed_pair_buf(maxrow + 1, n, nbb);
+    std::vector<uint32_t> words(safe, 0);   // exactly the size the library allocates: ASan checks the bound
+    const cpc_compressor<A>& cmp = get_compressor<A>();
+    uint32_t used = cmp.low_level_compress_pairs(in.data(), n, nbb, words.data());
+    std::vector<uint32_t> out(n + 1, 0);
+    cmp.low_level_uncompress_pairs(out.data(), n, nbb, words.data(), used);
+    o.R(used); for (uint32_t i = 0; i < used; i++) o.R(words[i]);
+    for (uint32_t i = 0; i < n; i++) o.R(out[i]);
+    break; }
+  case 33: { // determine_pseudo_phase lg_k c
+    typedef std::allocator<uint8_t> A;
+    I l = t.at(1); if (l < 0 || l > 255) throw std::invalid_argument("lg_k");
+    o.R(cpc_compressor<A>::determine_pseudo_phase((uint8_t)l, (uint32_t)t.at(2))); break; }
+  case 34: { // golomb_choose_number_of_base_bits k count
+    typedef std::allocator<uint8_t> A;
+    o.R(cpc_compressor<A>::golomb_choose_number_of_base_bits((uint32_t)t.at(1), (uint64_t)t.at(2))); break; }
   case 10: { // new union r lg_k seed
     I l = t.at(2);
     if (l < 0 || l > 255) throw std::invalid_argument("lg_k");
